@@ -39,6 +39,8 @@ def make_line(rng, v, seg, kind, toks, ec):
         vals[-1] = toks.next()
         if rng.random() < 0.3:
             vals[0] = toks.next() + '^' + toks.next() + '&' + toks.next()
+        if rng.random() < 0.25 and n > 1:
+            vals[0] = '   ' + (vals[0] if vals[0][:1].isalnum() else toks.next()) + ' '   # blanks around the text are data
         return f.join([seg] + vals)
     if kind == 'beyond':
         top = max(r.num for r in rows if r.num)
@@ -81,6 +83,12 @@ def make_line(rng, v, seg, kind, toks, ec):
                 val = toks.next() + '^' + val
             return f.join([seg] + [''] * (r.num - 1) + [val])
     line, _ = gen.segment_line(rng, v, seg, ec, toks=toks, max_fields=4)
+    if rng.random() < 0.2 and seg != 'MSH':
+        # blanks in front of the first field's text (and behind a text that is not the end of the line) are data
+        parts = line.split(f)
+        if len(parts) > 2 and parts[1] and parts[1][0].isalnum():     # (a leaf of blanks only is not judged)
+            parts[1] = rng.choice(['  ', ' ', '\t']) + parts[1] + rng.choice(['', ' '])
+            line = f.join(parts)
     return line
 
 
@@ -245,15 +253,38 @@ def run_profile(spec, rec):
         rows = gen.usable_rows(v, tgt.name)
         keep = rows[rng.randint(1, len(rows) - 3)].num
         t = c18.thaw(tables.lib(v).MESSAGES[name])
-        for c in t[1]:
-            if c[0] == tgt.name:
-                c[1][1] = [f for f in c[1][1] if int(f[0].split('_')[1]) <= keep]
-        prof = {name: c18.freeze(t)}
-        later = [r for r in rows if r.num > keep]
-        vals = {}
-        for r in rng.sample(later, min(2, len(later))) + [rows[0]]:
-            vals[r.num] = toks.next()
-        line = tgt.name + '|' + '|'.join(vals.get(k, '') for k in range(1, max(vals) + 1))
+        wide = [r for r in rows if r.kind == 'sequence' and len([x for x in tables.components(v, r.datatype) if x.ok]) >= 3
+                and all(x.ok for x in tables.components(v, r.datatype))]
+        if i % 2 and wide:
+            # the profile keeps only the first components of one field's datatype: a message filling a later component
+            fr = wide[rng.randrange(len(wide))]
+            ncomp = len(tables.components(v, fr.datatype))
+            keepc = rng.randint(1, ncomp - 1)
+            for c in t[1]:
+                if c[0] == tgt.name:
+                    for f in c[1][1]:
+                        if f[0] == fr.name:
+                            f[1][1] = f[1][1][:keepc]
+            prof = {name: c18.freeze(t)}
+            comps = [''] * ncomp
+            comps[0] = toks.next()
+            comps[rng.randint(keepc, ncomp - 1)] = toks.next()
+            while comps and comps[-1] == '':
+                comps.pop()
+            line = tgt.name + '|' * fr.num + '^'.join(comps)
+            vals = {fr.num: 1}
+            keep = 'components 1..%d of %s' % (keepc, fr.name)
+            rec.count('profiles_trimming_components')
+        else:
+            for c in t[1]:
+                if c[0] == tgt.name:
+                    c[1][1] = [f for f in c[1][1] if int(f[0].split('_')[1]) <= keep]
+            prof = {name: c18.freeze(t)}
+            later = [r for r in rows if r.num > keep]
+            vals = {}
+            for r in rng.sample(later, min(2, len(later))) + [rows[0]]:
+                vals[r.num] = toks.next()
+            line = tgt.name + '|' + '|'.join(vals.get(k, '') for k in range(1, max(vals) + 1))
         lines = []
         for l in structref.emit(node, rng, 'required', 1):
             lines.append(structref.msh_line(v, name) if l.seg == 'MSH' else
